@@ -114,7 +114,7 @@ func (p *Parser) ValidateDelta(delta *model.DeltaModel) error {
 }
 
 func (p *Parser) validateMultihash(mh, alias string) error {
-	if len(mh) > int(p.MaxOperationHashLength) {
+	if uint(len(mh)) > p.MaxOperationHashLength {
 		return fmt.Errorf("%s length[%d] exceeds maximum hash length[%d]", alias, len(mh), p.MaxOperationHashLength)
 	}
 
@@ -137,7 +137,7 @@ func (p *Parser) validateDeltaSize(delta *model.DeltaModel) error {
 		return fmt.Errorf("marshal canonical for delta failed: %s", err.Error())
 	}
 
-	if len(canonicalDelta) > int(p.MaxDeltaSize) {
+	if uint(len(canonicalDelta)) > p.MaxDeltaSize {
 		return fmt.Errorf("delta size[%d] exceeds maximum delta size[%d]", len(canonicalDelta), p.MaxDeltaSize)
 	}
 
